@@ -327,7 +327,7 @@ func cmdVC(args []string) int {
 
 func main() {
 	if len(os.Args) < 2 {
-		fmt.Println("usage: govc vc|check|claim|list ...")
+		fmt.Println("usage: govc vc|check|claim|replay|list|ssa ...")
 		os.Exit(2)
 	}
 	switch os.Args[1] {
@@ -337,6 +337,8 @@ func main() {
 		os.Exit(cmdCheck(os.Args[2:]))
 	case "claim":
 		os.Exit(cmdClaim(os.Args[2:]))
+	case "replay":
+		os.Exit(cmdReplay(os.Args[2:]))
 	case "ssa":
 		P, db, err := loadAll()
 		if err != nil {
